@@ -10,7 +10,7 @@ From Batchie Require Import Lib.Sexp Model.Encode Model.Screen Model.Retro Model
   Proofs.C11Lib Proofs.C11Select Proofs.C11Holdout Proofs.C13Filter Proofs.C13Optimal Proofs.C13Size
   Proofs.C13NPlate Proofs.C13SampleSeg Proofs.C13SampleSegEven Proofs.C13Shapes Proofs.C13MergeLib Proofs.C13TopBottom
   Proofs.C13MergeMin Proofs.C13MergeShapes Proofs.C11Init Proofs.C13Sparse Proofs.C13Pairwise
-  Proofs.C13SparseTerm Proofs.C13PairwiseSingles Generated.SrcRetro Proofs.C11Source.
+  Proofs.C13SparseTerm Proofs.C13PairwiseSingles Generated.SrcRetro Proofs.C11Source Generated.SrcRetroGen Proofs.C13Source Proofs.C13SourcePairwise.
 Import ListNotations.
 
 (* ---- the models are what the source says NOW (see Props/C11.v for the full list and what is trusted) ----
@@ -42,6 +42,136 @@ Theorem C13_model_is_source_merge_tb_smooth_plates : forall n_iter rows,
   src_merge_tb_smooth_plates n_iter rows = merge_tb n_iter rows.
 Proof. exact src_merge_tb_is_model. Qed.
 Print Assumptions C13_model_is_source_merge_tb_smooth_plates.
+
+(* ---- the shipped generators / smoothers, the initial plate and the combination filter (Generated/SrcRetroGen.v) ----
+   Each `src_*` below is the WHOLE method of /repo's retrospective.py (data.py for the filter), re-translated on every run.
+   Trusted: the translator and the primitives of the configurations C13_SAMPLE_SEG ... C13_COMBO_FILTER of
+   harness/src_functions.py (their meanings: the last sections of Model/Retro.v and Model/RetroInit.v). *)
+
+(* SampleSegregatingPermutationPlateGenerator._generate_plates: the loop over the samples, the size test, n_plates =
+   ceil(len / float(max)), the permutation, np.array_split, both appends, the labelling loop, the final Screen(...).
+   For every max >= 0, screen and answer stream it equals the model with numpy's IndexError of `plate_names[indices] = ...`
+   made explicit ([sample_seg_checked]: the computed plates must consist of row numbers of the screen, tag 92); under
+   numpy's permutation contract - the hypothesis of C13_sample_segregating_shape / _even - that check passes and it equals
+   [sample_seg true]; so the translated wrapper around it equals [generate_plates (GSampleSeg true mx)], the subject of
+   those theorems *)
+Theorem C13_model_is_source_sample_segregating_generate_plates : forall mx rows ds, (0 <= mx)%Z ->
+  src_sample_seg_generate_plates mx rows ds = sample_seg_checked mx rows ds /\
+  (ss_contract mx rows (sample_names rows) ds -> src_sample_seg_generate_plates mx rows ds = sample_seg true mx rows ds) /\
+  (ss_contract mx (unobserved rows) (sample_names (unobserved rows)) ds ->
+   src_generate_plates (src_sample_seg_generate_plates mx) rows ds = generate_plates (GSampleSeg true mx) rows ds).
+Proof. exact link_sample_segregating_generate_plates. Qed.
+Print Assumptions C13_model_is_source_sample_segregating_generate_plates.
+
+(* a negative max_plate_size: same outcome up to the error tag (Python draws the permutation, then np.array_split raises;
+   the model raises without reading the answer, so an exhausted answer stream - not a Python behaviour - shows as tag 90
+   instead of 3); on the empty screen both return it *)
+Theorem C13_model_is_source_sample_segregating_generate_plates_negative_max : forall mx rows ds, (mx < 0)%Z ->
+  match sample_seg true mx rows ds with
+  | Ok r => src_sample_seg_generate_plates mx rows ds = Ok r
+  | Err _ => exists t, src_sample_seg_generate_plates mx rows ds = Err t
+  end.
+Proof. exact src_sample_seg_negative_max. Qed.
+Print Assumptions C13_model_is_source_sample_segregating_generate_plates_negative_max.
+
+(* PlatePermutationPlateGenerator._generate_plates: the truthiness test of force_include_plate_names, both selection
+   vectors, the np.any(~v) branch, rng.permutation of the plate names, the Screen(...) with the new names and an
+   all-false mask, the `is not None` test and combine - for every force list (None and [] alike), screen, answer stream *)
+Theorem C13_model_is_source_plate_permutation_generate_plates : forall force rows ds,
+  src_plate_permutation_generate_plates force rows ds = plate_perm (match force with Some l => l | None => [] end) rows ds /\
+  src_generate_plates (src_plate_permutation_generate_plates force) rows ds
+  = generate_plates (GPerm (match force with Some l => l | None => [] end)) rows ds.
+Proof. exact link_plate_permutation_generate_plates. Qed.
+Print Assumptions C13_model_is_source_plate_permutation_generate_plates.
+
+(* FixedSizeSmoother._smooth_plates: the loop over the plates with its three-way size test (< drop and continue, == keep,
+   > rng.choice of plate_size of the plate's indices, np.isin, Plate(...)), the OR-loop over the results, subset().to_screen() *)
+Theorem C13_model_is_source_fixed_size_smooth_plates : forall t rows ds,
+  src_fixed_size_smooth_plates t rows ds = size_smooth t rows ds /\
+  src_smooth_plates (src_fixed_size_smooth_plates t) rows ds = smooth_plates (SFixed t) rows ds.
+Proof. exact link_fixed_size_smooth_plates. Qed.
+Print Assumptions C13_model_is_source_fixed_size_smooth_plates.
+
+(* OptimalSizeSmoother._smooth_plates: the three numpy statements choosing the size (sort of the plate sizes, argmax of
+   size * (number of plates - position), the indexing; ValueError on a screen without plates), then the same loops *)
+Theorem C13_model_is_source_optimal_size_smooth_plates : forall rows ds,
+  src_optimal_size_smooth_plates rows ds = optimal_smooth rows ds /\
+  src_smooth_plates src_optimal_size_smooth_plates rows ds = smooth_plates SOptimal rows ds.
+Proof. exact link_optimal_size_smooth_plates. Qed.
+Print Assumptions C13_model_is_source_optimal_size_smooth_plates.
+
+(* NPlatePerCellLineSmoother._get_plate_sample_id (integer ids = ranks of the sample names) and ._smooth_plates: the
+   counting loop `plate_counts[id] += 1` on the defaultdict, sample_names_by_id = screen.sample_mapping[0], the loop over
+   the dict's items with the `<` test and the drop BY NAME screen.subset(screen.sample_names != sample_names_by_id[id]) -
+   equal to the repaired model [nplate true] (the subject of C13_nplate_minimum) for every minimum and screen *)
+Theorem C13_model_is_source_nplate_smooth_plates : forall m rows ds,
+  (forall p, src_nplate_get_plate_sample_id rows (plate_vec p rows) = dor nm <- plate_sample p rows; Ok (sample_id_z rows nm)) /\
+  src_nplate_smooth_plates m rows = nplate true m rows /\
+  src_smooth_plates (fun s d => dor r <- src_nplate_smooth_plates m s; Ok (r, d)) rows ds = smooth_plates (SNPlate true m) rows ds.
+Proof. exact link_nplate_smooth_plates. Qed.
+Print Assumptions C13_model_is_source_nplate_smooth_plates.
+
+(* BatchieEnsemblePlateSmoother._smooth_plates: the four calls in their order, each the translated smooth_plates wrapper
+   around the translated _smooth_plates of the class the source names, with the constructor argument the source passes;
+   fuel = the while-fuel of MergeMin (sufficient when it exceeds the number of experiments) *)
+Theorem C13_model_is_source_ensemble_smooth_plates : forall ms n m rows ds fuel, length rows < fuel ->
+  src_ensemble_smooth_plates ms n m rows ds fuel = ensemble true ms n m rows ds /\
+  src_smooth_plates (fun s d => src_ensemble_smooth_plates ms n m s d fuel) rows ds = smooth_plates (SEnsemble true ms n m) rows ds.
+Proof. exact link_ensemble_smooth_plates. Qed.
+Print Assumptions C13_model_is_source_ensemble_smooth_plates.
+
+(* SparseCoverPlateGenerator._generate_and_unmask_initial_plate inside the translated public wrapper
+   InitialRetrospectivePlateGenerator.generate_and_unmask_initial_plate (core.py: the fully-observed check and its raise):
+   the per-sample loop (both branches of `selection_vector.sum() > 0`), `while len(remaining_treatments) > 0` on explicit
+   fuel, the reveal branch, the plate names and the final Screen(...) - equal to [sparse_cover] for every screen and answer
+   stream whenever the fuel exceeds the number of recorded answers (each iteration reads one) OR the number of distinct
+   treatment ids of the screen (each iteration covers a new one: C13_sparse_cover_loop_progress), e.g. fuel = S (ndistinct ..) *)
+Theorem C13_model_is_source_sparse_cover_generate_and_unmask_initial_plate : forall ctrl reveal rows ds fuel,
+  length ds < fuel \/ ndistinct (all_tids ctrl rows) < fuel ->
+  (forall f : initial_inner,
+     src_generate_and_unmask_initial_plate f rows ds = if negb (forallb r_mask rows) then Err 8%Z else f rows ds) /\
+  src_sparse_cover ctrl reveal rows ds fuel = sparse_cover_inner ctrl reveal rows ds /\
+  src_generate_and_unmask_initial_plate (fun s d => src_sparse_cover ctrl reveal s d fuel) rows ds = sparse_cover ctrl reveal rows ds.
+Proof. exact link_sparse_cover_generate_and_unmask_initial_plate. Qed.
+Print Assumptions C13_model_is_source_sparse_cover_generate_and_unmask_initial_plate.
+
+(* ... and with C13_sparse_cover_terminates the fuel hypothesis is discharged: with #distinct-treatment-ids + 1 units of
+   fuel the translated source returns on every fully observed screen for every contract-obeying, long enough answer stream *)
+Theorem C13_model_is_source_sparse_cover_terminates : forall ctrl reveal rows ds,
+  forallb r_mask rows = true ->
+  sc_contract ctrl rows (sample_names rows) [] ds ->
+  length (sample_names rows) + ndistinct (all_tids ctrl rows) <= length ds ->
+  exists out ds',
+    src_generate_and_unmask_initial_plate
+      (fun s d => src_sparse_cover ctrl reveal s d (S (ndistinct (all_tids ctrl rows)))) rows ds = Ok (out, ds').
+Proof. exact src_sparse_cover_terminates. Qed.
+Print Assumptions C13_model_is_source_sparse_cover_terminates.
+
+(* filter_dataset_to_treatments_that_appear_in_at_least_one_combo (data.py): the arity check and its raise, the vector of
+   rows without a control entry, their ids plus the sentinel, the np.in1d / np.all row test, subset().to_screen() *)
+Theorem C13_model_is_source_filter_dataset_to_treatments_that_appear_in_at_least_one_combo : forall ctrl arity rows,
+  src_combo_filter ctrl arity rows = combo_filter ctrl arity rows.
+Proof. exact src_combo_filter_is_model. Qed.
+Print Assumptions C13_model_is_source_filter_dataset_to_treatments_that_appear_in_at_least_one_combo.
+
+(* PairwisePlateGenerator._generate_plates: the combination / single-agent split, np.unique with counts, the anchor branch
+   (argsort of the negated counts, the anchor ids, both `len // subset_size`, both permutations and array_splits, setdiff1d)
+   and the plain branch, the two nested loops filling group_lookup and its sentinel entry, np.vectorize(group_lookup.get),
+   n_control and the store of rng.choice(range(num_groups), size=n_control) (always empty on a combination screen), the row
+   sort, hstack with the sample ids, np.unique(axis=0), the labelling loop, the Screen(...) of the combination experiments,
+   the `is None` return, the loop over the samples of the single-agent experiments (count, eligible plates, the raise,
+   rng.choice among them, the masked store), the second Screen(...) and combine - equal to [pairwise] for every control
+   name, subset / anchor size, screen and answer stream whose first answer, when anchors are requested, is np.argsort's
+   (positions of the unique-id array: [argsort_ok], a fact about every run - numpy's argsort returns a permutation of the
+   positions; with anchor_size <= 0 it says nothing) *)
+Theorem C13_model_is_source_pairwise_generate_plates : forall ctrl subset anchor rows ds,
+  (argsort_ok anchor (length (unique_ids ctrl (filter (is_combo ctrl) rows))) ds ->
+   src_pairwise_generate_plates ctrl subset anchor rows ds = pairwise ctrl subset anchor rows ds) /\
+  (argsort_ok anchor (length (unique_ids ctrl (filter (is_combo ctrl) (unobserved rows)))) ds ->
+   src_generate_plates (src_pairwise_generate_plates ctrl subset anchor) rows ds
+   = generate_plates (GPairwise ctrl subset anchor) rows ds).
+Proof. exact link_pairwise_generate_plates. Qed.
+Print Assumptions C13_model_is_source_pairwise_generate_plates.
 
 (* ---- sample-segregating generator ---- *)
 Theorem C13_sample_segregating_shape : forall mx rows ds out ds',
@@ -363,3 +493,11 @@ Proof. vm_compute. reflexivity. Qed.
 Example C13_pairwise_singles_bad_oracle :
   generate_plates (GPairwise [] 1 0) w_pw [DInts [1; 0]; DInts []; DNames [gen_name 1]; DNames [gen_name 1]] = Err 94%Z.
 Proof. vm_compute. reflexivity. Qed.
+(* the argsort hypothesis of the Pairwise link is satisfiable with anchors: ids 0 (a) and 1 (b), one anchor *)
+Example C13_pairwise_argsort_ok_example :
+  argsort_ok 1 (length (unique_ids [] (filter (is_combo []) w_pw))) [DInts [1; 0]; DInts [1]; DInts [0]; DInts []] /\
+  length (unique_ids [] (filter (is_combo []) w_pw)) = 2.
+Proof.
+  split; [|vm_compute; reflexivity]. intros _. exists [1; 0], [DInts [1]; DInts [0]; DInts []]. split; [reflexivity|].
+  vm_compute. repeat constructor.
+Qed.
